@@ -158,7 +158,7 @@ theorem loaded_as (mods : List P11Module) (ksk : KskKey) (pol : KskPolicy) (b : 
     LoadedAs mods ksk pol isPublic ck := by
   obtain ⟨_, f0, s1, f, hg, hr, ha⟩ := loadPkcs11Key_some mods ksk pol b isPublic tok s s' ck h
   obtain ⟨pk, hpk, hne, hp11, hdns, hfam⟩ := (acceptKey_some_iff ksk pol f ck).mp ha
-  obtain ⟨h1, h2, h3, h4, h5, h6, r, hr1, hr2⟩ := publicKeyToDnssecKey_ok _ _ _ _ _ _ hdns
+  obtain ⟨h1, h2, h3, h4, h5, h6, r, hr1, hr2⟩ := publicKeyToDnssecKey_inv_c04 _ _ _ _ _ _ hdns
   -- the record checked is the record found, up to the public key text
   have hsame : f.label = f0.label ∧ f.keyClass = f0.keyClass ∧ f.module = f0.module ∧ f.slot = f0.slot := by
     rcases refetchPublic_ok mods ksk isPublic f0 f tok s1 s' hr with ⟨rfl, _⟩ | ⟨_, _, fp, _, rfl⟩
@@ -301,6 +301,63 @@ theorem fetched_implies_identity (ext : Externals) (mods : List P11Module) (cfg 
                     exact ⟨ksk, hl, hw, loaded_as mods ksk cfg.kskPolicy b isPublic tok s s1 ck hload,
                       ht, fun ds hd hne => hds ds hd (by simpa using hne)⟩
                   · exact hall p hp
+
+theorem identityOk_iff (ext : Externals) (ksk : KskKey) (ck : CompositeKey) :
+    validateDnskeyMatchesKsk ext ksk ck.dns = .ok () ↔ IdentityOk ext ksk ck := by
+  rw [validateDnskeyMatchesKsk_ok_iff]
+  unfold IdentityOk
+  constructor
+  · rintro ⟨h1, h2⟩; exact ⟨h1, fun ds hd hne => h2 ds hd (by simpa using hne)⟩
+  · rintro ⟨h1, h2⟩; exact ⟨h1, fun ds hd hne => h2 ds hd (by simpa using hne)⟩
+
+/-- **C04_iff (fetch).** `_fetch_keys` returns keys for `name :: rest` exactly when the name is
+    configured, `load_pkcs11_key` returned a key for it (see `loaded_iff`), the identity check (key
+    tag, DS SHA-256 — each only where configured) holds for that key, and the remaining names are
+    fetched likewise; the keys come back in the order of the names. -/
+theorem fetched_cons_iff (ext : Externals) (mods : List P11Module) (cfg : SignerConfig) (b : Bundle)
+    (isPublic : Bool) (name : String) (rest : List String) (tok : Token) (s s' : TokState)
+    (cks : List CompositeKey) :
+    fetchKeys ext mods cfg b isPublic (name :: rest) tok s = (.ok cks, s') ↔
+      ∃ ksk ck more s1, cks = ck :: more ∧ cfg.kskKeys.lookup name = some ksk ∧
+        loadPkcs11Key mods ksk cfg.kskPolicy b isPublic tok s = (.ok (some ck), s1) ∧
+        IdentityOk ext ksk ck ∧
+        fetchKeys ext mods cfg b isPublic rest tok s1 = (.ok more, s') := by
+  rw [fetchKeys_cons_run]
+  constructor
+  · intro h
+    cases hl : cfg.kskKeys.lookup name with
+    | none => rw [hl] at h; simp at h
+    | some ksk =>
+      rw [hl] at h
+      simp only at h
+      cases hload : loadPkcs11Key mods ksk cfg.kskPolicy b isPublic tok s with
+      | mk r s1 =>
+        rw [hload] at h
+        cases r with
+        | error e => simp at h
+        | ok o =>
+          cases o with
+          | none => simp at h
+          | some ck =>
+            simp only at h
+            cases hv : validateDnskeyMatchesKsk ext ksk ck.dns with
+            | error e => rw [hv] at h; simp at h
+            | ok u =>
+              rw [hv] at h
+              simp only at h
+              cases hrest : fetchKeys ext mods cfg b isPublic rest tok s1 with
+              | mk r2 s2 =>
+                rw [hrest] at h
+                cases r2 with
+                | error e => simp at h
+                | ok more =>
+                  simp only [Prod.mk.injEq, Except.ok.injEq] at h
+                  obtain ⟨rfl, rfl⟩ := h
+                  exact ⟨ksk, ck, more, s1, rfl, rfl, hload, (identityOk_iff ext ksk ck).mp hv, hrest⟩
+  · rintro ⟨ksk, ck, more, s1, rfl, hl, hload, hid, hrest⟩
+    rw [hl]
+    simp only [hload, (identityOk_iff ext ksk ck).mpr hid, hrest]
+
 
 /-! ## A label that cannot be resolved stops the run -/
 
